@@ -17,6 +17,7 @@ C12 — property theorems about the state machine `CBV.C12` (Model/C12.lean), fo
 -/
 import CBV.Lemmas.C12Tie
 import CBV.Lemmas.C12X
+import CBV.Lemmas.C12Tol
 import CBV.Gen.TC12
 
 namespace CBV.C12
@@ -490,11 +491,15 @@ theorem T_C12_write_failure_recover (m : Mesh) :
 /-! ### an exception inside `assemble()` (round 6c) -/
 
 /-- Without edge data `factory.create` raises on, the exception-aware functions the driver runs are the plain ones all
-    theorems above are about: `assemble` never raises, `write` leaves the same state. -/
+    theorems above are about: `assemble` and `backport` never raise, `write` leaves the same state (`stepX` is `step` for every
+    call: for all other calls by definition). -/
 theorem T_C12_stepX_ok (m : Mesh) (h : ∀ o ∈ m.depot, NoInvalid o) :
-    assembleX m = (assemble m, false) ∧ stepX m .assemble = step m .assemble ∧ stepX m .write = step m .write := by
+    assembleX m = (assemble m, false) ∧ stepX m .assemble = step m .assemble ∧ stepX m .backport = step m .backport ∧
+    stepX m .write = step m .write := by
   have ha := assembleX_ok m h
-  refine ⟨ha, by simp [stepX, step, ha], ?_⟩
+  refine ⟨ha, by simp [stepX, step, ha], ?_, ?_⟩
+  · simp only [stepX, step, backportX_ok m h]
+    cases backport m <;> rfl
   simp only [stepX, step, writeX, write, ha]
   by_cases hs : isAssembled m = true
   · by_cases hd : (gradeBlocks m).lists.blocks.all Block.isDefined = true <;> simp [hs, hd, -List.all_eq_true]
@@ -502,6 +507,11 @@ theorem T_C12_stepX_ok (m : Mesh) (h : ∀ o ∈ m.depot, NoInvalid o) :
     · by_cases hd : (gradeBlocks (assemble m)).lists.blocks.all Block.isDefined = true <;>
         simp [hs, hb, hd, -List.all_eq_true]
     · simp [hs, hb]
+
+/-- … along every history: what the driver runs (`stepX`, exceptions included) is the history the theorems are about
+    (`run` = `step`), as long as no `add` brings invalid edge data (`backport` keeps edge data, so the depot stays valid). -/
+theorem T_C12_runX (hist : List Step) (hs : ∀ s ∈ hist, StepOk s) : hist.foldl stepX {} = run {} hist :=
+  runX_eq_run {} hist (by intro o ho; simp at ho) hs
 
 /-- What an `assemble()` that is left by an exception leaves behind: the lists hold everything the live operations before
     the failing one (`pre`) contributed — reached without an exception —, plus the vertices of the failing operation `b` and
@@ -549,6 +559,32 @@ theorem T_C12_exception_recover (p c : Mesh) (hd : p.depot = c.depot) (hdel : p.
   have hl : liveOps p = liveOps c := by simp [liveOps, hd, hdel]
   have hs : slavePatches p = slavePatches c := by simp [slavePatches, hm]
   rw [RT_lists, RT_lists, hl, hs, hp, hi, recover_patches]
+
+/-! ### vertex identity by distance < TOL (round 6d) -/
+
+/-- The code merges corners closer than `constants.TOL` (`vfindT`, C05's `closeV3` with the TOL of the current source); the
+    model merges corners with equal coordinates.  On every set of points `S` on which "closer than TOL" means "equal", that
+    holds the corners of all operations and the present vertices, the tolerance-based assembly loop builds exactly the lists of
+    the model's loop, vertex by vertex — so every theorem of this file about `assemble` / `RT` / `backport` is a theorem about
+    the tolerance-based assembly of such a mesh — and the vertices stay inside `S`. -/
+theorem T_C12_tol_assemble (S : Pt → Prop) (hS : Separated S) (m : Mesh)
+    (ho : ∀ o ∈ m.depot, ∀ c, S (o.corners.getD c 0)) (hv : ∀ v ∈ m.lists.verts, S v.loc) :
+    assembleLoopT (slavePatches m) m.deleted m.depot m.lists = (assemble m).lists ∧
+    assembleLoopT (slavePatches m) m.deleted m.depot (clear m).lists = (RT m).lists ∧
+    (∀ v ∈ (assemble m).lists.verts, S v.loc) ∧ (∀ v ∈ (RT m).lists.verts, S v.loc) := by
+  have h1 := assembleLoopT_eq S hS (slavePatches m) m.deleted m.depot m.lists ho hv
+  have h2 := assembleLoopT_eq S hS (slavePatches m) m.deleted m.depot (clear m).lists ho
+    (by intro v hv'; simp [clear] at hv')
+  have e1 : (assemble m).lists = assembleLoop (slavePatches m) m.deleted m.depot m.lists := by rw [assemble_flat]
+  have e2 : (RT m).lists = assembleLoop (slavePatches m) m.deleted m.depot (clear m).lists := by
+    show (assemble (clear m)).lists = _
+    rw [assemble_flat]; rfl
+  rw [e1, e2]
+  exact ⟨h1.1, h2.1, h1.2, h2.2⟩
+
+/-- one corner at a time: the search itself (`VertexList.find_duplicated`) -/
+theorem T_C12_tol_find (S : Pt → Prop) (hS : Separated S) (loc : Pt) (sl : List String) (vs : List Vtx)
+    (hl : S loc) (hv : ∀ v ∈ vs, S v.loc) : vfindT loc sl vs = vfind loc sl vs := vfindT_eq S hS loc sl vs hl hv
 
 /-! ### the model functions are the statements of the current source (regenerated by `cbv/tables/c12.py`) -/
 
@@ -759,5 +795,23 @@ example : ∀ o ∈ (run {} exHistory).depot, NoInvalid o := by
   rw [this] at ho
   simp only [List.mem_cons, List.not_mem_nil, or_false] at ho
   rcases ho with rfl | rfl <;> decide
+
+/-- hypothesis of `T_C12_runX`: the calls of the example history bring valid edge data only -/
+example : ∀ s ∈ exHistory, StepOk s := by
+  intro s hs
+  simp only [exHistory, List.mem_cons, List.not_mem_nil, or_false] at hs
+  rcases hs with rfl | rfl | rfl | rfl | rfl | rfl | rfl <;>
+    first | exact trivial | (apply noInvalid_of_slots; decide)
+
+/-! ### non-vacuity of the round-6d theorems -/
+
+/-- hypothesis of `T_C12_tol_assemble`: the corner points of the two boxes of `exShared` (and the default point) are
+    separated with the TOL of the current source … -/
+example : Separated (· ∈ ([0, 1, 2, 3, 4, 5, 6, 7, 8, 9, 10, 11] : List Pt)) :=
+  separated_of_list _ (by decide +kernel)
+
+/-- … and the hypothesis is needed: two points 1e-8 apart are one vertex for the code and two for the exact search -/
+example : vfindT ⟨1/100000000, 0, 0⟩ [] [⟨0, [], []⟩] = some 0 ∧ vfind ⟨1/100000000, 0, 0⟩ [] [⟨0, [], []⟩] = none := by
+  decide +kernel
 
 end CBV.C12
